@@ -114,5 +114,24 @@ CHECKS["C13"] = dict(
           dict(name="sender", test="^(TestProbeCoalescedLost|TestSenderQueue)$", quick=dict(n=4000, procs=2, timeout=300), thorough=dict(n=300000, procs=4, timeout=2400))],
 )
 
+CHECKS["C17"] = dict(
+    level="exploration",
+    technique="model-based property testing (rapid) of the sniffing listener connection, its write queue and the WebSocket adapter over fake sockets / frame "
+              "sources and a real gorilla client; oracle: bytes out = bytes in, in order, once",
+    level_text="(a) generated byte streams, socket chunkings (incl. data returned together with EOF/another error), matcher sets and consumer buffer sizes: the "
+               "consumer must read exactly the stream and the socket's final error; (b) generated Write/Flush/wait sequences at flush rates 1..1000: the socket "
+               "must always hold a prefix of, and finally exactly, the bytes written (direct, queued and timer-flushed paths observed); (c) generated WebSocket "
+               "message sequences (binary/text/empty, control frames interleaved, fragment sizes 1..4096, EOF with or after the data) through the adapter, one "
+               "binary message per write; (d) the same through a real gorilla client with small write buffers (real continuation frames) against TryUpgrade.",
+    level_note="Trusted: the fake socket / frame source (40 lines each), gorilla/websocket as the client in (d). More than 5 consecutive empty WebSocket messages are "
+               "not generated (bufio gives up after 100 empty reads: a documented reader limit).",
+    rule="rapid-generated cases; non-trivial = (a) >=1 matcher peeked and the consumer's first read is either small (<8) or spans the replay boundary, (b) >=1 queued "
+         "write, (c) stream longer than the first read or control frames present, (d) >=1 message larger than the client's write buffer; distinct = distinct case value.",
+    legs=[dict(name="sniffer", test="^TestSniffer$", quick=dict(n=6000, procs=2, timeout=300), thorough=dict(n=600000, procs=6, timeout=2400)),
+          dict(name="writes", test="^TestWrites$", quick=dict(n=1500, procs=4, timeout=400), thorough=dict(n=60000, procs=14, timeout=2400)),
+          dict(name="websocket", test="^TestWebsocket$", quick=dict(n=4000, procs=2, timeout=300), thorough=dict(n=400000, procs=6, timeout=2400)),
+          dict(name="websocket-real", test="^TestRealWebsocket$", quick=dict(n=300, procs=2, timeout=300), thorough=dict(n=20000, procs=6, timeout=2400))],
+)
+
 for _k in CHECKS:
     NOT_APPLICABLE.pop(_k, None)
